@@ -282,6 +282,16 @@ func Align(mut []minijs.Token, ot []OTok, known func(string) bool) Alignment {
 		if i < n && j < m && tokEq(mut[i], ot[j]) && try(1, 1, "") {
 			return true
 		}
+		// a token that is no PropertyName where the tree has the key "" (finding)
+		if i < n && j < m && ot[j].IsKey && ot[j].Text == "" && (mut[i].Kind == minijs.TPunct || mut[i].Kind == minijs.TRegex) {
+			if known("C04-OBJLIT-ANY-TOKEN-KEY") {
+				if try(1, 1, "C04-OBJLIT-ANY-TOKEN-KEY") {
+					return true
+				}
+			} else if wouldTolerate == "" {
+				wouldTolerate = "C04-OBJLIT-ANY-TOKEN-KEY"
+			}
+		}
 		// grouping parentheses: ignored on both sides, except that an empty pair "( )" of the text
 		// must be a structural one
 		if (isP(i, "(") && !isP(i+1, ")")) || isP(i, ")") {
